@@ -40,6 +40,9 @@ func VerifC17Records(sc int) {
 	if sc == 3 {
 		qt = 12
 	}
+	if sc == 8 {
+		qt = 28
+	}
 	m := verifDNSNew(verifU16(), 0x8180, 1, an, 0, 0)
 	var q []byte
 	lens := verifC17Shape(sc)
@@ -97,6 +100,11 @@ func VerifC17Records(sc int) {
 		at := m.rrHeader(12, ttl1)
 		ptrname = m.labels(nil, 5, 3)
 		m.root()
+		m.rdEnd(at)
+	case 8: // a response that carries only an AAAA record
+		m.ptr(12)
+		at := m.rrHeader(28, ttl3)
+		m.raw(ip6)
 		m.rdEnd(at)
 	case 4, 5:
 		m.ptr(12)
@@ -189,6 +197,10 @@ func VerifC17Records(sc int) {
 			verifAssert(verifStrEq(r.Name, ptrname) && k == r.Name, "C17:ptr-name")
 			verifAssert(r.IP == netip.AddrFrom4([4]byte{1, 2, 3, 4}) && r.TTL == ttl1, "C17:ptr-ip-ttl")
 		}
+	case 8:
+		r, ok := e.IP6Records[a6]
+		verifAssert(ok && verifStrEq(r.Name, q) && r.IP == a6 && r.TTL == ttl3 && len(e.IP6Records) == 1, "C17:aaaa-only-record")
+		verifAssert(len(e.IP4Records) == 0 && len(e.CNameRecords) == 0 && len(e.PTRRecords) == 0, "C17:no-other-records")
 	case 4, 5, 6:
 		r, ok := e.IP4Records[a1]
 		verifAssert(ok && verifStrEq(r.Name, q) && r.IP == a1 && r.TTL == ttl1 && len(e.IP4Records) == 1, "C17:a-record")
